@@ -27,7 +27,7 @@ ASSUMPTIONS = ["files are valid UTF-8 without CR; B's tags are paired, bodies co
                "the closing tag's cleaned text occurs in the raw opening tag line (same spelling of the name)"]
 TRUSTED = c01.TRUSTED + ["clause 'does not modify A': the model's file_sync has no output for A; observed on every real run, not a Coq statement"]
 
-NAMES = ["X", "XY", "X_1", "IMPORTS", "Y"]
+NAMES = ["X", "XY", "X_1", "IMPORTS", "Y", "x", "Imports"]
 STYLES = [b"// {{{USER_%s}}}\n", b"    # {{{USER_%s}}}\n", b"/* {{{USER_%s */\n", b"{{{USER_%s\n", b"\t/// {{{USER_%s}}}\n"]
 PLAIN = [b"x = 1\n", b"\n", b"\n", b"\n", b"\twith tab\n", b"    \n", b"<<<EXCLUDE=foo>>>\n", b"foo bar\n", b"<<<EXTENDS=other.h>>>\n",
          b"<<<IF x>>>\n", b"}\n", "grüße\n".encode(), b"a\tb\tc\n", b"  trailing  \n"]
